@@ -244,9 +244,9 @@ func TestVerifC12_blsfp(t *testing.T) {
 	e := func(x bf.Elem) *ff.Fp { return x.(*ff.Fp) }
 	a := &c12Prime{
 		name: "bls12381.Fp", P: bf.PBLS, size: ff.FpSize,
-		newE: func() bf.Elem { return new(ff.Fp) },
-		cp:   func(d, s bf.Elem) { *e(d) = *e(s) },
-		same: func(x, y bf.Elem) bool { return *e(x) == *e(y) },
+		newE:      func() bf.Elem { return new(ff.Fp) },
+		cp:        func(d, s bf.Elem) { *e(d) = *e(s) },
+		same:      func(x, y bf.Elem) bool { return *e(x) == *e(y) },
 		unmarshal: func(z bf.Elem, b []byte) error { return e(z).UnmarshalBinary(b) },
 		marshal: func(x bf.Elem) []byte {
 			b, err := e(x).MarshalBinary()
@@ -331,9 +331,9 @@ func TestVerifC12_blsscalar(t *testing.T) {
 	e := func(x bf.Elem) *ff.Scalar { return x.(*ff.Scalar) }
 	a := &c12Prime{
 		name: "bls12381.Scalar", P: bf.RBLS, size: ff.ScalarSize,
-		newE: func() bf.Elem { return new(ff.Scalar) },
-		cp:   func(d, s bf.Elem) { e(d).Set(e(s)) },
-		same: func(x, y bf.Elem) bool { return *e(x) == *e(y) },
+		newE:      func() bf.Elem { return new(ff.Scalar) },
+		cp:        func(d, s bf.Elem) { e(d).Set(e(s)) },
+		same:      func(x, y bf.Elem) bool { return *e(x) == *e(y) },
 		unmarshal: func(z bf.Elem, b []byte) error { return e(z).UnmarshalBinary(b) },
 		marshal: func(x bf.Elem) []byte {
 			b, err := e(x).MarshalBinary()
